@@ -55,6 +55,20 @@ func Sign(dir string) (*tlc.Container, []wsync.BlockHash, error) {
 	return c, hs, err
 }
 
+// SignWith is Sign with the pool wrapped (e.g. by a jittering pool).
+func SignWith(dir string, wrap func(lake.Pool) lake.Pool) (*tlc.Container, []wsync.BlockHash, error) {
+	c, err := Walk(dir)
+	if err != nil {
+		return nil, nil, err
+	}
+	var pool lake.Pool = fspool.New(c, dir)
+	if wrap != nil {
+		pool = wrap(pool)
+	}
+	hs, err := pwr.ComputeSignature(context.Background(), c, pool, Quiet())
+	return c, hs, err
+}
+
 // DiffOut is the result of a diff.
 type DiffOut struct {
 	Patch, Sig []byte
